@@ -2,35 +2,30 @@ package rules
 
 import (
 	"fmt"
-	"go/ast"
 	"go/constant"
 	"go/token"
 	"go/types"
 	"strings"
 
 	"cvsslint/internal/facts"
+	"cvsslint/internal/ir"
 	"cvsslint/internal/load"
-	"cvsslint/internal/spec"
 
-	"golang.org/x/tools/go/types/typeutil"
+	"golang.org/x/tools/go/ssa"
 )
 
 func init() { register("C17", c17) }
 
+// reportCtor is the path model of one report constructor: the value stored in
+// every field of the report it returns, as terms over its parameters
+// (p0 = the metrics object, p1 = the options).
 type reportCtor struct {
 	fn     *types.Func
-	decl   *ast.FuncDecl
-	info   *types.Info
-	param  *types.Var // the metrics object
-	osVar  *types.Var // variadic options
 	level  *facts.Level
-	lit    *ast.CompositeLit
-	litPos token.Pos
-	fields map[*types.Var]ast.Expr
-	defs   map[*types.Var]ast.Expr // local := definitions (single-valued or first of a tuple)
-	defIdx map[*types.Var]int      // index within the tuple
-	single map[*types.Var]bool     // defined by a single-value :=
 	repT   *types.Named
+	fields map[*types.Var]*ir.Term
+	pos    map[*types.Var]token.Pos
+	ret    *ir.Term
 }
 
 func (e *Env) reportCtors(rule string) []*reportCtor {
@@ -38,7 +33,6 @@ func (e *Env) reportCtors(rule string) []*reportCtor {
 	if v3 == nil {
 		return nil
 	}
-	pk := e.P.Lib("v3/report")
 	var out []*reportCtor
 	for _, l := range v3 {
 		fn := e.P.LookupFunc("v3/report", "New"+l.Spec.Name)
@@ -46,226 +40,57 @@ func (e *Env) reportCtors(rule string) []*reportCtor {
 			e.C.Fail(rule, "v3/report.New"+l.Spec.Name, "", "report constructor not found")
 			continue
 		}
-		rc := &reportCtor{fn: fn, decl: e.P.Decl(fn), info: pk.TypesInfo, level: l, defs: map[*types.Var]ast.Expr{}, defIdx: map[*types.Var]int{}, single: map[*types.Var]bool{}}
 		sig := fn.Type().(*types.Signature)
-		if sig.Params().Len() != 2 || !sig.Variadic() || !types.Identical(sig.Params().At(0).Type(), l.Ptr()) {
-			e.C.Fail(rule, fname(fn), e.P.Pos(fn.Pos()), "signature is not (metrics object of its level, options...)")
+		if sig.Params().Len() != 2 || !sig.Variadic() || !types.Identical(sig.Params().At(0).Type(), l.Ptr()) || sig.Results().Len() != 1 {
+			e.C.Fail(rule, fname(fn), e.P.Pos(fn.Pos()), "signature is not (metrics object of its level, options...) -> report")
 			continue
 		}
-		rc.param, rc.osVar = sig.Params().At(0), sig.Params().At(1)
-		if rc.decl == nil || rc.decl.Body == nil {
-			continue
-		}
-		okShape := true
-		for _, st := range rc.decl.Body.List {
-			switch s := st.(type) {
-			case *ast.AssignStmt:
-				if s.Tok != token.DEFINE || len(s.Rhs) != 1 {
-					okShape = false
-					continue
-				}
-				for i, lh := range s.Lhs {
-					id, ok := lh.(*ast.Ident)
-					if !ok {
-						okShape = false
-						continue
-					}
-					if id.Name == "_" {
-						continue
-					}
-					if v, ok := rc.info.Defs[id].(*types.Var); ok {
-						rc.defs[v] = s.Rhs[0]
-						rc.defIdx[v] = i
-						rc.single[v] = len(s.Lhs) == 1
-					}
-				}
-			case *ast.ReturnStmt:
-				if len(s.Results) == 1 {
-					x := ast.Unparen(s.Results[0])
-					if u, ok := x.(*ast.UnaryExpr); ok && u.Op == token.AND {
-						x = ast.Unparen(u.X)
-					}
-					if cl, ok := x.(*ast.CompositeLit); ok {
-						rc.lit = cl
-					}
-				}
-			default:
-				// other statements (caching, logging, ...) are not part of the wiring; the fields they
-				// feed will simply not match the expected expressions
-			}
-		}
-		_ = okShape
-		if rc.lit != nil {
-			fields, ok := litFields(rc.lit, rc.info)
-			if !ok {
-				e.C.Undecided(rule, fname(fn), e.P.Pos(rc.lit.Pos()), "composite literal is not fully keyed")
-				continue
-			}
-			rc.fields = fields
-			rc.litPos = rc.lit.Pos()
-		} else {
-			// alternative form: a local report value filled by  rep.F = expr  assignments and returned
-			var repVar *types.Var
-			for _, st := range rc.decl.Body.List {
-				if r, ok := st.(*ast.ReturnStmt); ok && len(r.Results) == 1 {
-					x := ast.Unparen(r.Results[0])
-					if u, ok := x.(*ast.UnaryExpr); ok && u.Op == token.AND {
-						x = ast.Unparen(u.X)
-					}
-					if id, ok := x.(*ast.Ident); ok {
-						repVar, _ = rc.info.Uses[id].(*types.Var)
-						rc.litPos = r.Pos()
-					}
-				}
-			}
-			if repVar == nil {
-				e.C.Undecided(rule, fname(fn), e.P.Pos(fn.Pos()), "constructor neither returns a keyed composite literal nor a local report value")
-				continue
-			}
-			rc.fields = map[*types.Var]ast.Expr{}
-			for _, st := range rc.decl.Body.List {
-				as, ok := st.(*ast.AssignStmt)
-				if !ok || as.Tok != token.ASSIGN || len(as.Lhs) != 1 || len(as.Rhs) != 1 {
-					continue
-				}
-				sel, ok := as.Lhs[0].(*ast.SelectorExpr)
-				if !ok {
-					continue
-				}
-				id, ok := ast.Unparen(sel.X).(*ast.Ident)
-				if !ok || rc.info.Uses[id] != types.Object(repVar) {
-					continue
-				}
-				if s := rc.info.Selections[sel]; s != nil && s.Kind() == types.FieldVal && len(s.Index()) == 1 {
-					rc.fields[s.Obj().(*types.Var)] = as.Rhs[0]
-				}
-			}
-		}
+		rc := &reportCtor{fn: fn, level: l, fields: map[*types.Var]*ir.Term{}, pos: map[*types.Var]token.Pos{}}
 		if pt, ok := sig.Results().At(0).Type().(*types.Pointer); ok {
 			rc.repT, _ = pt.Elem().(*types.Named)
+		}
+		if rc.repT == nil {
+			e.C.Fail(rule, fname(fn), e.P.Pos(fn.Pos()), "result is not a pointer to a report struct")
+			continue
+		}
+		leaves, err := ir.Leaves(e.P.SSAFunc(fn), ir.LeafOptions{Forward: true, Effects: true})
+		if err != nil || len(leaves) != 1 || len(leaves[0].Ret) != 1 {
+			e.C.Undecided(rule, fname(fn), e.P.Pos(fn.Pos()), fmt.Sprintf("constructor is not a single straight-line path (%v)", err))
+			continue
+		}
+		lf := leaves[0]
+		rc.ret = lf.Ret[0]
+		// whole-struct initialisers ( rep := someStruct ) are not field-wise wiring: fields they fill stay unknown
+		for _, ef := range lf.Effects {
+			if ef.Kind != "store" || ef.Addr.Op != ir.OField {
+				continue
+			}
+			if ef.Addr.Args[0].Key() != rc.ret.Key() {
+				continue
+			}
+			fv, _ := ef.Addr.Obj.(*types.Var)
+			rc.fields[fv] = ef.Val // the last store wins (path order)
+			rc.pos[fv] = ef.Pos
 		}
 		out = append(out, rc)
 	}
 	return out
 }
 
-func (rc *reportCtor) field(name string) (*types.Var, ast.Expr) {
-	for fv, x := range rc.fields {
+func (rc *reportCtor) field(name string) (*types.Var, *ir.Term) {
+	for fv, t := range rc.fields {
 		if fv.Name() == name {
-			return fv, rc.resolve(x)
+			return fv, t
 		}
 	}
 	return nil, nil
 }
 
-// resolve follows local single-value := definitions (ver := base.Ver.String(); Version: ver).
-func (rc *reportCtor) resolve(x ast.Expr) ast.Expr {
-	for i := 0; i < 8; i++ {
-		id, ok := ast.Unparen(x).(*ast.Ident)
-		if !ok {
-			return x
-		}
-		v, _ := rc.info.Uses[id].(*types.Var)
-		def, ok := rc.defs[v]
-		if !ok || rc.single[v] == false {
-			return x
-		}
-		x = def
-	}
-	return x
-}
-
-// isOptsLang: the expression is opts.lang where opts := newOptions(os...).
-func (e *Env) isOptsLang(rc *reportCtor, x ast.Expr) bool {
-	x = rc.resolve(x)
-	sel, ok := ast.Unparen(x).(*ast.SelectorExpr)
-	if !ok || sel.Sel.Name != "lang" {
-		return false
-	}
-	id, ok := ast.Unparen(sel.X).(*ast.Ident)
-	if !ok {
-		return false
-	}
-	v, _ := rc.info.Uses[id].(*types.Var)
-	def := rc.defs[v]
-	call, ok := def.(*ast.CallExpr)
-	if !ok {
-		return false
-	}
-	callee, _ := typeutil.Callee(rc.info, call).(*types.Func)
-	if callee == nil || callee.Name() != "newOptions" || callee.Pkg() != rc.fn.Pkg() {
-		return false
-	}
-	return rc.forwardsOptions(call)
-}
-
-// forwardsOptions: the call's only argument is  os...
-func (rc *reportCtor) forwardsOptions(call *ast.CallExpr) bool {
-	if !call.Ellipsis.IsValid() || len(call.Args) == 0 {
-		return false
-	}
-	id, ok := ast.Unparen(call.Args[len(call.Args)-1]).(*ast.Ident)
-	return ok && rc.info.Uses[id] == types.Object(rc.osVar)
-}
-
-// paramField: x is  param.F  selecting field F declared at the parameter's own level.
-func (rc *reportCtor) paramField(x ast.Expr) *types.Var {
-	x = rc.resolve(x)
-	sel, ok := ast.Unparen(x).(*ast.SelectorExpr)
-	if !ok {
-		return nil
-	}
-	id, ok := ast.Unparen(sel.X).(*ast.Ident)
-	if !ok || rc.info.Uses[id] != types.Object(rc.param) {
-		return nil
-	}
-	s := rc.info.Selections[sel]
-	if s == nil || s.Kind() != types.FieldVal {
-		return nil
-	}
-	fv, _ := s.Obj().(*types.Var)
-	return fv
-}
-
-// ownMethodCall: x is  param.M()  with M declared on the parameter's own type.
-func (rc *reportCtor) ownMethodCall(x ast.Expr, name string) bool {
-	x = rc.resolve(x)
-	call, ok := ast.Unparen(x).(*ast.CallExpr)
-	if !ok || len(call.Args) != 0 {
-		return false
-	}
-	sel, ok := ast.Unparen(call.Fun).(*ast.SelectorExpr)
-	if !ok {
-		return false
-	}
-	id, ok := ast.Unparen(sel.X).(*ast.Ident)
-	if !ok || rc.info.Uses[id] != types.Object(rc.param) {
-		return false
-	}
-	s := rc.info.Selections[sel]
-	if s == nil || s.Kind() != types.MethodVal || len(s.Index()) != 1 {
-		return false
-	}
-	return s.Obj() == types.Object(rc.level.Method(name))
-}
-
-func namesCallee(info *types.Info, x ast.Expr) (*types.Func, *ast.CallExpr) {
-	call, ok := ast.Unparen(x).(*ast.CallExpr)
-	if !ok {
-		return nil, nil
-	}
-	fn, _ := typeutil.Callee(info, call).(*types.Func)
-	if fn == nil || fn.Pkg() == nil || fn.Pkg().Path() != load.ModPath+"/v3/report/names" {
-		return nil, call
-	}
-	return fn, call
-}
-
 func c17(e *Env) {
 	c := e.C
 	c.Level = "other"
-	c.Explanation = "Field-by-field wiring of report.NewBase/NewTemporal/NewEnvironmental: for every metric P of the constructor's own level the literal sets PName = names.<type name of P>(opts.lang) and PValue = names.<value function whose parameter type is P's type>(param.P, opts.lang) with param.P resolving to field P itself; group titles and column headers from the like-named functions; Version = param.Ver.String(); Vector = first result of the own-level Encode; <Level>Score = strconv.FormatFloat(own-level Score(), 'f', -1, 64); SeverityValue from the own-level Severity(); the embedded report is the lower constructor applied to the accessor of the embedded object with the options forwarded; opts = newOptions(os...) defaulting to language.English and applying every option; Vector/SeverityName/SeverityValue are declared at depth 0 of every report struct (shadowing) while the embedded report stays reachable. Title functions of different metrics return different titles (so a field cannot show another metric's title unnoticed)."
-	c.Trusted = []string{"go/types selections", "C18 (name functions) and C14 (accessors return the embedded object) are decided by their own checks"}
+	c.Explanation = "Field-by-field wiring of report.NewBase/NewTemporal/NewEnvironmental, read off the SSA form (one straight-line path; the value stored into each field of the returned report as a term over the parameters): for every metric P of the constructor's own level PName = names.<type name of P>(newOptions(os...).lang) and PValue = names.<value function whose parameter type is P's type>(param.P, same language) with param.P the object's own field; group titles and column headers from the like-named functions; Version = param.Ver.String(); Vector = first result of the own-level Encode; <Level>Score = strconv.FormatFloat(own-level Score(), 'f', -1, 64); SeverityValue from the own-level Severity(); the embedded report is the lower constructor applied to the accessor of the embedded object with the same options slice; newOptions returns a fresh value whose language is language.English and calls every element of the options slice on it; WithOptionsLanguage's closure stores its argument; Vector/SeverityName/SeverityValue are declared at depth 0 of every report struct (shadowing) while the embedded report stays reachable. Title functions of different metrics return different titles."
+	c.Trusted = []string{"go/types + go/ssa", "C18 (name functions) and C14 (accessors return the embedded object) are decided by their own checks"}
 	c.NotDecided = []string{"reports of nil metrics objects (report.NewBase(nil) dereferences its argument; no property quantifies over that)", "what text/template does with the fields (C19)"}
 	nf := e.nameFunctions("name-functions")
 	rcs := e.reportCtors("report-constructor")
@@ -276,128 +101,110 @@ func c17(e *Env) {
 	c.Floor("metric-title", 22)
 	c.Floor("metric-value", 22)
 	c.Floor("level-fields", 19)
-	var prev *reportCtor
-	for _, rc := range rcs {
-		e.reportWiring(rc, prev, nf)
-		prev = rc
-	}
-	e.optionsRules()
+	e.guardPanics("report-constructor", "v3/report", func() {
+		var prev *reportCtor
+		for _, rc := range rcs {
+			e.reportWiring(rc, prev, nf)
+			prev = rc
+		}
+		e.optionsRules()
+	})
 	e.titleDistinct(nf, rcs)
 	e.reportScoreRendering("score-rendering")
+}
+
+// optsLang is the term  newOptions(os...).lang .
+func (e *Env) optsLang() *ir.Term {
+	no := e.P.LookupFunc("v3/report", "newOptions")
+	if no == nil {
+		panic("newOptions not found")
+	}
+	st, _ := no.Type().(*types.Signature).Results().At(0).Type().(*types.Pointer)
+	if st == nil {
+		panic("newOptions does not return a pointer")
+	}
+	s, _ := st.Elem().Underlying().(*types.Struct)
+	var lang *types.Var
+	for i := 0; s != nil && i < s.NumFields(); i++ {
+		if s.Field(i).Name() == "lang" {
+			lang = s.Field(i)
+		}
+	}
+	if lang == nil {
+		panic("options has no lang field")
+	}
+	return ir.Field(ir.Call(no, ir.Param(1)), lang)
+}
+
+func namesFunc(e *Env, name string) *types.Func {
+	return e.P.LookupFunc("v3/report/names", name)
 }
 
 func (e *Env) reportWiring(rc, lower *reportCtor, nf *nameFuncs) {
 	c := e.C
 	who := fname(rc.fn)
+	lang := e.optsLang()
 	used := map[*types.Var]bool{}
-	use := func(name string) (ast.Expr, string) {
-		fv, x := rc.field(name)
+	lvl := rc.level.Spec.Name
+	p0 := ir.Param(0)
+	expect := func(rule, field string, want *ir.Term, okMsg, what string) {
+		fv, got := rc.field(field)
+		cons := fmt.Sprintf("%s field %s", who, field)
 		if fv == nil {
-			return nil, ""
+			c.Fail(rule, cons, e.P.Pos(rc.fn.Pos()), "the constructor does not set this field from its arguments ("+what+" expected)")
+			return
 		}
 		used[fv] = true
-		return x, e.P.Pos(x.Pos())
+		pos := e.P.Pos(rc.pos[fv])
+		if want == nil {
+			c.Fail(rule, cons, pos, "no expected expression could be built for "+what)
+			return
+		}
+		if got.Key() == want.Key() {
+			c.Ok(rule, cons, pos, okMsg)
+			return
+		}
+		a, b := ir.Diff(got, want)
+		c.Fail(rule, cons, pos, fmt.Sprintf("%s: found %s, expected %s", what, clip(a), clip(b)))
 	}
-	lvl := rc.level.Spec.Name
-	// metrics
+	call := func(fn *types.Func, args ...*ir.Term) *ir.Term {
+		if fn == nil {
+			return nil
+		}
+		return ir.Call(fn, args...)
+	}
+	own := func(name string) *ir.Term {
+		m := rc.level.Method(name)
+		if m == nil {
+			return nil
+		}
+		return ir.Call(m, p0)
+	}
 	for _, fv := range rc.level.Metrics {
 		P := fv.Name()
 		tname := fv.Type().(*types.Named).Obj().Name()
-		// title
-		x, pos := use(P + "Name")
-		cons := fmt.Sprintf("%s field %sName", who, P)
-		if x == nil {
-			c.Fail("metric-title", cons, e.P.Pos(rc.litPos), "field missing from the report literal")
-		} else {
-			fn, call := namesCallee(rc.info, x)
-			ok := fn != nil && fn.Name() == tname && len(call.Args) == 1 && e.isOptsLang(rc, call.Args[0])
-			got := "<not a names call>"
-			if fn != nil {
-				got = "names." + fn.Name()
-			}
-			c.Check(ok, "metric-title", cons, pos, "names."+tname+"(opts.lang)", fmt.Sprintf("title of metric %s (%s) is taken from %s, expected names.%s(opts.lang)", P, tname, got, tname))
-		}
-		// value
-		x, pos = use(P + "Value")
-		cons = fmt.Sprintf("%s field %sValue", who, P)
-		if x == nil {
-			c.Fail("metric-value", cons, e.P.Pos(rc.litPos), "field missing from the report literal")
-			continue
-		}
-		fn, call := namesCallee(rc.info, x)
-		want := nf.byType[fv.Type().(*types.Named)]
-		switch {
-		case fn == nil || call == nil || len(call.Args) != 2:
-			c.Fail("metric-value", cons, pos, "not a call names.<ValueOf>(param."+P+", opts.lang)")
-		case fn != want:
-			c.Fail("metric-value", cons, pos, fmt.Sprintf("value name is computed by names.%s, the value function of %s is %s", fn.Name(), tname, nameOr(want)))
-		case rc.paramField(call.Args[0]) != fv:
-			got := rc.paramField(call.Args[0])
-			c.Fail("metric-value", cons, pos, fmt.Sprintf("shows the value of field %s, expected the object's own field %s", varName(got), P))
-		case !e.isOptsLang(rc, call.Args[1]):
-			c.Fail("metric-value", cons, pos, "language argument is not opts.lang (opts := newOptions(os...))")
-		default:
-			c.Ok("metric-value", cons, pos, fmt.Sprintf("names.%s(%s.%s, opts.lang)", fn.Name(), rc.param.Name(), P))
-		}
+		expect("metric-title", P+"Name", call(namesFunc(e, tname), lang), "names."+tname+"(opts.lang)", "title of metric "+P+" ("+tname+")")
+		vf := nf.byType[fv.Type().(*types.Named)]
+		expect("metric-value", P+"Value", call(vf, ir.Field(p0, fv), lang), "names."+nameOf(vf)+"("+rc.level.Spec.Name+"."+P+", opts.lang)", "value name of the object's own field "+P)
 	}
-	// group title and column header
-	for _, pr := range [][2]string{{lvl + "Metrics", lvl + "Metrics"}, {lvl + "MetricValue", lvl + "MetricsValueOf"}, {"SeverityName", "Severity"}} {
-		x, pos := use(pr[0])
-		cons := fmt.Sprintf("%s field %s", who, pr[0])
-		if x == nil {
-			c.Fail("level-fields", cons, e.P.Pos(rc.litPos), "field missing from the report literal")
-			continue
-		}
-		fn, call := namesCallee(rc.info, x)
-		ok := fn != nil && fn.Name() == pr[1] && len(call.Args) == 1 && e.isOptsLang(rc, call.Args[0])
-		c.Check(ok, "level-fields", cons, pos, "names."+pr[1]+"(opts.lang)", "expected names."+pr[1]+"(opts.lang)")
+	expect("level-fields", lvl+"Metrics", call(namesFunc(e, lvl+"Metrics"), lang), "names."+lvl+"Metrics(opts.lang)", "group title")
+	expect("level-fields", lvl+"MetricValue", call(namesFunc(e, lvl+"MetricsValueOf"), lang), "names."+lvl+"MetricsValueOf(opts.lang)", "column header")
+	expect("level-fields", "SeverityName", call(namesFunc(e, "Severity"), lang), "names.Severity(opts.lang)", "severity title")
+	if sv := own("Severity"); sv != nil {
+		expect("level-fields", "SeverityValue", call(namesFunc(e, "SeverityValueOf"), sv, lang), "names.SeverityValueOf(own-level Severity(), opts.lang)", "severity of the "+lvl+" level itself")
 	}
-	// severity value
-	if x, pos := use("SeverityValue"); x == nil {
-		c.Fail("level-fields", who+" field SeverityValue", e.P.Pos(rc.litPos), "field missing")
-	} else {
-		fn, call := namesCallee(rc.info, x)
-		ok := fn != nil && fn.Name() == "SeverityValueOf" && len(call.Args) == 2 && rc.ownMethodCall(call.Args[0], "Severity") && e.isOptsLang(rc, call.Args[1])
-		c.Check(ok, "level-fields", who+" field SeverityValue", pos, "names.SeverityValueOf(own-level Severity(), opts.lang)", "severity shown is not the "+lvl+" level's own Severity()")
+	if en := own("Encode"); en != nil {
+		expect("level-fields", "Vector", &ir.Term{Op: ir.OExtract, N: 0, Args: []*ir.Term{en}}, "first result of the own-level Encode()", "vector of the "+lvl+" level itself")
 	}
-	// vector
-	if x, pos := use("Vector"); x == nil {
-		c.Fail("level-fields", who+" field Vector", e.P.Pos(rc.litPos), "field missing")
-	} else {
-		ok := false
-		if id, isId := ast.Unparen(x).(*ast.Ident); isId {
-			if v, _ := rc.info.Uses[id].(*types.Var); v != nil && rc.defIdx[v] == 0 && rc.defs[v] != nil {
-				ok = rc.ownMethodCall(rc.defs[v], "Encode")
-			}
-		}
-		c.Check(ok, "level-fields", who+" field Vector", pos, "first result of the own-level Encode()", "vector is not the first result of "+lvl+".Encode() on the constructor's argument")
-	}
-	// score
-	if x, pos := use(lvl + "Score"); x == nil {
-		c.Fail("level-fields", who+" field "+lvl+"Score", e.P.Pos(rc.litPos), "field missing")
-	} else {
-		call, _ := ast.Unparen(x).(*ast.CallExpr)
-		ok := call != nil && len(call.Args) == 4 && rc.ownMethodCall(call.Args[0], "Score")
-		c.Check(ok, "level-fields", who+" field "+lvl+"Score", pos, "rendering of the own-level Score()", "score shown is not the "+lvl+" level's own Score()")
-	}
-	// version (base only)
+	expect("level-fields", lvl+"Score", e.formatFloatOf(own("Score")), "strconv.FormatFloat(own-level Score(), 'f', -1, 64)", "score of the "+lvl+" level itself")
 	if rc.level.VerField != nil {
-		if x, pos := use("Version"); x == nil {
-			c.Fail("level-fields", who+" field Version", e.P.Pos(rc.litPos), "field missing")
-		} else {
-			ok := false
-			if call, isCall := ast.Unparen(x).(*ast.CallExpr); isCall && len(call.Args) == 0 {
-				if sel, isSel := ast.Unparen(call.Fun).(*ast.SelectorExpr); isSel && sel.Sel.Name == "String" {
-					ok = rc.paramField(sel.X) == rc.level.VerField
-				}
-			}
-			c.Check(ok, "level-fields", who+" field Version", pos, "param.Ver.String()", "version label is not param.Ver.String()")
-		}
+		vs := load.MethodOf(rc.level.VerField.Type(), "String")
+		expect("level-fields", "Version", call(vs, ir.Field(p0, rc.level.VerField)), "param.Ver.String()", "version label of the object")
 	}
 	// embedded report
+	st := rc.repT.Underlying().(*types.Struct)
 	if lower != nil {
 		var emb *types.Var
-		st := rc.repT.Underlying().(*types.Struct)
 		for i := 0; i < st.NumFields(); i++ {
 			if st.Field(i).Embedded() {
 				emb = st.Field(i)
@@ -407,45 +214,218 @@ func (e *Env) reportWiring(rc, lower *reportCtor, nf *nameFuncs) {
 		if emb == nil {
 			c.Fail("embedded-report", cons, e.P.Pos(rc.fn.Pos()), "report struct does not embed the lower report")
 		} else {
-			x := rc.fields[emb]
 			used[emb] = true
-			call, _ := ast.Unparen(x).(*ast.CallExpr)
-			ok := false
-			why := "not a call of the lower report constructor"
-			if call != nil {
-				callee, _ := typeutil.Callee(rc.info, call).(*types.Func)
-				acc := map[string]string{"Base": "BaseMetrics", "Temporal": "TemporalMetrics"}[lower.level.Spec.Name]
-				switch {
-				case callee != lower.fn:
-					why = "constructor called is not " + fname(lower.fn)
-				case len(call.Args) < 1 || !rc.ownMethodCall(call.Args[0], acc):
-					why = "argument is not param." + acc + "()"
-				case len(call.Args) != 2 || !rc.forwardsOptions(call):
-					why = "options (language) are not forwarded to the embedded report"
-				default:
-					ok = true
-				}
+			acc := rc.level.Method(lower.level.Spec.Name + "Metrics")
+			var want *ir.Term
+			if acc != nil {
+				want = ir.Call(lower.fn, ir.Call(acc, p0), ir.Param(1))
 			}
-			c.Check(ok, "embedded-report", cons, e.P.Pos(rc.litPos), "lower constructor on the accessor of the embedded object, options forwarded", why)
+			got := rc.fields[emb]
+			switch {
+			case got == nil:
+				c.Fail("embedded-report", cons, e.P.Pos(rc.fn.Pos()), "the embedded report is not set")
+			case want == nil:
+				c.Fail("embedded-report", cons, e.P.Pos(rc.fn.Pos()), "accessor "+lower.level.Spec.Name+"Metrics not declared on the level")
+			case got.Key() == want.Key():
+				c.Ok("embedded-report", cons, e.P.Pos(rc.pos[emb]), "lower constructor on the accessor of the embedded object, same options")
+			default:
+				a, b := ir.Diff(got, want)
+				c.Fail("embedded-report", cons, e.P.Pos(rc.pos[emb]), fmt.Sprintf("the embedded report is not %s(param.%s(), os...): found %s, expected %s (language not forwarded, or another object reported)", lower.fn.Name(), acc.Name(), clip(a), clip(b)))
+			}
 		}
-		// shadowing depth
 		for _, n := range []string{"Vector", "SeverityName", "SeverityValue"} {
 			obj, idx, _ := types.LookupFieldOrMethod(rc.repT, true, rc.fn.Pkg(), n)
 			c.Check(obj != nil && len(idx) == 1, "shadowing", rc.repT.Obj().Name()+"."+n, e.P.Pos(rc.repT.Obj().Pos()), "declared at depth 0, shadowing the embedded report's field", "field is not declared at this report level: the higher level would show the lower level's value")
 		}
 	}
-	// nothing else
-	for fv, x := range rc.fields {
-		if !used[fv] {
-			c.Undecided("level-fields", who+" field "+fv.Name(), e.P.Pos(x.Pos()), "report field the wiring rules do not know")
-		}
-	}
-	st := rc.repT.Underlying().(*types.Struct)
+	// every field of the report struct must have been accounted for
 	for i := 0; i < st.NumFields(); i++ {
-		if _, ok := rc.fields[st.Field(i)]; !ok {
-			c.Fail("level-fields", who+" field "+st.Field(i).Name(), e.P.Pos(rc.litPos), "report field is never filled")
+		fv := st.Field(i)
+		if used[fv] {
+			continue
+		}
+		if _, set := rc.fields[fv]; set {
+			c.Undecided("level-fields", who+" field "+fv.Name(), e.P.Pos(rc.pos[fv]), "report field the wiring rules do not know")
+		} else {
+			c.Fail("level-fields", who+" field "+fv.Name(), e.P.Pos(rc.fn.Pos()), "report field is never filled")
 		}
 	}
+}
+
+// formatFloatOf: strconv.FormatFloat(x, 'f', -1, 64).
+func (e *Env) formatFloatOf(x *ir.Term) *ir.Term {
+	if x == nil {
+		return nil
+	}
+	ff := e.externFunc(e.P.Lib("v3/report").Types, "strconv", "FormatFloat")
+	if ff == nil {
+		return nil
+	}
+	return ir.Call(ff, x,
+		ir.Const(constant.MakeInt64('f'), types.Typ[types.Uint8]),
+		ir.Const(constant.MakeInt64(-1), types.Typ[types.Int]),
+		ir.Const(constant.MakeInt64(64), types.Typ[types.Int]))
+}
+
+// optionsRules: newOptions returns a fresh options value whose language is
+// language.English and applies every option to it; WithOptionsLanguage stores its argument.
+func (e *Env) optionsRules() {
+	c := e.C
+	no := e.P.LookupFunc("v3/report", "newOptions")
+	wl := e.P.LookupFunc("v3/report", "WithOptionsLanguage")
+	if no == nil || wl == nil {
+		c.Fail("options", "v3/report options", "", "newOptions / WithOptionsLanguage not found")
+		return
+	}
+	sf := e.P.SSAFunc(no)
+	who := fname(no)
+	// the returned value
+	var ret ssa.Value
+	nret := 0
+	for _, b := range sf.Blocks {
+		for _, in := range b.Instrs {
+			if r, ok := in.(*ssa.Return); ok && len(r.Results) == 1 {
+				ret = r.Results[0]
+				nret++
+			}
+		}
+	}
+	if nret != 1 || ret == nil {
+		c.Undecided("options", who, e.P.Pos(no.Pos()), "not a single return")
+		return
+	}
+	// default language: the options value is a fresh allocation (here or in a helper) whose lang is language.English
+	english := func(v ssa.Value) bool {
+		u, ok := v.(*ssa.UnOp)
+		if !ok || u.Op != token.MUL {
+			return false
+		}
+		g, ok := u.X.(*ssa.Global)
+		return ok && g.Pkg.Pkg.Path() == "golang.org/x/text/language" && g.Name() == "English"
+	}
+	langStores := func(fn *ssa.Function, obj ssa.Value) (n int, ok bool) {
+		ok = true
+		for _, b := range fn.Blocks {
+			for _, in := range b.Instrs {
+				st, isSt := in.(*ssa.Store)
+				if !isSt {
+					continue
+				}
+				fa, isFA := st.Addr.(*ssa.FieldAddr)
+				if !isFA || fa.X != obj || fieldVarOf(fa).Name() != "lang" {
+					continue
+				}
+				n++
+				if !english(st.Val) {
+					ok = false
+				}
+			}
+		}
+		return
+	}
+	okDefault := false
+	switch x := ret.(type) {
+	case *ssa.Alloc:
+		n, ok := langStores(sf, x)
+		okDefault = n == 1 && ok
+	case *ssa.Call:
+		if callee := x.Call.StaticCallee(); callee != nil && callee.Pkg == sf.Pkg && len(x.Call.Args) == 0 {
+			// helper returning the defaults
+			var hret ssa.Value
+			hn := 0
+			for _, b := range callee.Blocks {
+				for _, in := range b.Instrs {
+					if r, ok := in.(*ssa.Return); ok && len(r.Results) == 1 {
+						hret = r.Results[0]
+						hn++
+					}
+				}
+			}
+			if al, ok := hret.(*ssa.Alloc); ok && hn == 1 {
+				n, ok := langStores(callee, al)
+				okDefault = n == 1 && ok
+			}
+		}
+	}
+	c.Check(okDefault, "options", who+" default language", e.P.Pos(no.Pos()), "a fresh options value with lang = language.English", "the options value is not a fresh allocation whose language defaults to language.English (shared defaults or another default language)")
+	// every option applied: a dynamic call  os[i](ret)  inside a loop over all elements of the parameter
+	okLoop := false
+	why := "no call of the options found"
+	for _, b := range sf.Blocks {
+		for _, in := range b.Instrs {
+			call, ok := in.(*ssa.Call)
+			if !ok || call.Call.StaticCallee() != nil || call.Call.IsInvoke() {
+				continue
+			}
+			ia := elementOf(call.Call.Value)
+			if ia == nil || len(call.Call.Args) != 1 || call.Call.Args[0] != ret {
+				why = "an option is not called on the value that is returned"
+				continue
+			}
+			lp, w := analyseIndexLoop(ia)
+			switch {
+			case lp == nil:
+				why = w
+			case lp.Slice != ssa.Value(sf.Params[0]):
+				why = "the loop does not range over the options parameter"
+			case lp.Start != 0:
+				why = "the loop skips the first option(s)"
+			case call.Block() != lp.Body:
+				why = "an option can be skipped"
+			default:
+				okLoop = true
+			}
+		}
+	}
+	c.Check(okLoop, "options", who+" applies every option", e.P.Pos(no.Pos()), "every element of the options slice is called on the returned value", "not every option is applied to the returned options value: "+why)
+	// WithOptionsLanguage
+	wsf := e.P.SSAFunc(wl)
+	okW := false
+	if len(wsf.AnonFuncs) == 1 {
+		cl := wsf.AnonFuncs[0]
+		leaves, err := ir.Leaves(cl, ir.LeafOptions{Forward: true, Effects: true})
+		if err == nil && len(leaves) == 1 {
+			n := 0
+			good := true
+			for _, ef := range leaves[0].Effects {
+				if ef.Kind != "store" {
+					continue
+				}
+				n++
+				if !(ef.Addr.Op == ir.OField && ef.Addr.Obj.Name() == "lang" && ef.Addr.Args[0].Op == ir.OParam && ef.Addr.Args[0].N == 0 && (ef.Val.Op == ir.OFree || (ef.Val.Op == "deref" && len(ef.Val.Args) == 1 && ef.Val.Args[0].Op == ir.OFree))) {
+					good = false
+				}
+			}
+			// the captured variable is WithOptionsLanguage's parameter
+			if n == 1 && good && len(cl.FreeVars) == 1 {
+				for _, b := range wsf.Blocks {
+					for _, in := range b.Instrs {
+						if mc, ok := in.(*ssa.MakeClosure); ok && len(mc.Bindings) == 1 {
+							if mc.Bindings[0] == ssa.Value(wsf.Params[0]) {
+								okW = true
+							}
+							if a, ok := mc.Bindings[0].(*ssa.Alloc); ok {
+								// parameter spilled to a cell: the cell is initialised from the parameter
+								if refs := a.Referrers(); refs != nil {
+									for _, r := range *refs {
+										if st, ok := r.(*ssa.Store); ok && st.Val == ssa.Value(wsf.Params[0]) {
+											okW = true
+										}
+									}
+								}
+							}
+						}
+					}
+				}
+			}
+		}
+	}
+	c.Check(okW, "options", fname(wl), e.P.Pos(wl.Pos()), "the returned option stores the requested language in options.lang", "the returned option does not store the requested language")
+}
+
+func fieldVarOf(fa *ssa.FieldAddr) *types.Var {
+	st := fa.X.Type().Underlying().(*types.Pointer).Elem().Underlying().(*types.Struct)
+	return st.Field(fa.Field)
 }
 
 func nameOr(f *types.Func) string {
@@ -462,87 +442,7 @@ func varName(v *types.Var) string {
 	return v.Name()
 }
 
-// optionsRules: newOptions defaults to English and applies every option; WithOptionsLanguage stores its argument.
-func (e *Env) optionsRules() {
-	c := e.C
-	pk := e.P.Lib("v3/report")
-	no := e.P.LookupFunc("v3/report", "newOptions")
-	wl := e.P.LookupFunc("v3/report", "WithOptionsLanguage")
-	if no == nil || wl == nil {
-		c.Fail("options", "v3/report options", "", "newOptions / WithOptionsLanguage not found")
-		return
-	}
-	info := pk.TypesInfo
-	// newOptions
-	d := e.P.Decl(no)
-	okDefault, okLoop, okRet := false, false, false
-	var optsVar *types.Var
-	for _, st := range d.Body.List {
-		switch s := st.(type) {
-		case *ast.AssignStmt:
-			if len(s.Lhs) == 1 && len(s.Rhs) == 1 {
-				if id, ok := s.Lhs[0].(*ast.Ident); ok {
-					x := ast.Unparen(s.Rhs[0])
-					if u, ok := x.(*ast.UnaryExpr); ok && u.Op == token.AND {
-						if cl, ok := ast.Unparen(u.X).(*ast.CompositeLit); ok {
-							fs, _ := litFields(cl, info)
-							for fv, val := range fs {
-								if fv.Name() == "lang" {
-									v := e.F.StaticValue(info, val)
-									okDefault = v.Kind == facts.VObj && v.Obj.Name() == "English" && v.Obj.Pkg().Path() == "golang.org/x/text/language"
-								}
-							}
-							optsVar, _ = info.Defs[id].(*types.Var)
-						}
-					}
-				}
-			}
-		case *ast.RangeStmt:
-			if len(s.Body.List) == 1 {
-				if es, ok := s.Body.List[0].(*ast.ExprStmt); ok {
-					if call, ok := es.X.(*ast.CallExpr); ok && len(call.Args) == 1 {
-						fid, ok1 := call.Fun.(*ast.Ident)
-						aid, ok2 := call.Args[0].(*ast.Ident)
-						vid, ok3 := s.Value.(*ast.Ident)
-						rid, ok4 := ast.Unparen(s.X).(*ast.Ident)
-						if ok1 && ok2 && ok3 && ok4 && info.Uses[fid] == info.Defs[vid] && info.Uses[aid] == types.Object(optsVar) {
-							sig := no.Type().(*types.Signature)
-							okLoop = info.Uses[rid] == types.Object(sig.Params().At(0))
-						}
-					}
-				}
-			}
-		case *ast.ReturnStmt:
-			if len(s.Results) == 1 {
-				if id, ok := s.Results[0].(*ast.Ident); ok {
-					okRet = info.Uses[id] == types.Object(optsVar) && optsVar != nil
-				}
-			}
-		}
-	}
-	c.Check(okDefault, "options", "v3/report.newOptions default language", e.P.Pos(no.Pos()), "language.English", "default language is not language.English")
-	c.Check(okLoop && okRet, "options", "v3/report.newOptions applies every option", e.P.Pos(no.Pos()), "for _, o := range os { o(opts) }; return opts", "not every option is applied to the returned options value")
-	// WithOptionsLanguage: return func(opts *options) { opts.lang = lang }
-	d = e.P.Decl(wl)
-	okW := false
-	if len(d.Body.List) == 1 {
-		if ret, ok := d.Body.List[0].(*ast.ReturnStmt); ok && len(ret.Results) == 1 {
-			if fl, ok := ret.Results[0].(*ast.FuncLit); ok && len(fl.Body.List) == 1 {
-				if as, ok := fl.Body.List[0].(*ast.AssignStmt); ok && as.Tok == token.ASSIGN && len(as.Lhs) == 1 && len(as.Rhs) == 1 {
-					sel, ok1 := as.Lhs[0].(*ast.SelectorExpr)
-					rid, ok2 := as.Rhs[0].(*ast.Ident)
-					if ok1 && ok2 && sel.Sel.Name == "lang" {
-						sig := wl.Type().(*types.Signature)
-						okW = info.Uses[rid] == types.Object(sig.Params().At(0))
-					}
-				}
-			}
-		}
-	}
-	c.Check(okW, "options", "v3/report.WithOptionsLanguage", e.P.Pos(wl.Pos()), "stores its argument in options.lang", "the returned option does not store the requested language")
-}
-
-// titleDistinct: the 26 metric titles (those used by PName fields) are pairwise different per language.
+// titleDistinct: the 22 metric titles (those used by PName fields) are pairwise different per language.
 func (e *Env) titleDistinct(nf *nameFuncs, rcs []*reportCtor) {
 	c := e.C
 	var titleFns []*types.Func
@@ -576,41 +476,30 @@ func (e *Env) titleDistinct(nf *nameFuncs, rcs []*reportCtor) {
 	c.Floor("title-distinct", 44)
 }
 
-// reportScoreRendering: <Level>Score = strconv.FormatFloat(x.Score(), 'f', -1, 64).
+// reportScoreRendering: <Level>Score = strconv.FormatFloat(<some Score()>, 'f', -1, 64)  (C06 cares about the
+// format arguments, C17 about which score).
 func (e *Env) reportScoreRendering(rule string) {
 	c := e.C
 	for _, rc := range e.reportCtors(rule) {
 		lvl := rc.level.Spec.Name
-		_, x := rc.field(lvl + "Score")
+		fv, got := rc.field(lvl + "Score")
 		cons := fname(rc.fn) + " field " + lvl + "Score"
-		if x == nil {
-			c.Fail(rule, cons, e.P.Pos(rc.fn.Pos()), "score field missing")
+		if fv == nil {
+			c.Fail(rule, cons, e.P.Pos(rc.fn.Pos()), "score field is not set")
 			continue
 		}
-		call, _ := ast.Unparen(x).(*ast.CallExpr)
-		ok := false
-		why := "not a call of strconv.FormatFloat"
-		if call != nil {
-			callee, _ := typeutil.Callee(rc.info, call).(*types.Func)
-			if callee != nil && callee.FullName() == "strconv.FormatFloat" && len(call.Args) == 4 {
-				cv := func(i int) constant.Value { return rc.info.Types[call.Args[i]].Value }
-				f, p, b := cv(1), cv(2), cv(3)
-				switch {
-				case f == nil || p == nil || b == nil:
-					why = "format arguments are not constants"
-				case f.Kind() != constant.Int || f.ExactString() != fmt.Sprint(int('f')):
-					why = "format verb is not 'f'"
-				case p.ExactString() != "-1":
-					why = "precision is not -1 (shortest representation)"
-				case b.ExactString() != "64":
-					why = "bit size is not 64"
-				default:
-					ok = true
-				}
+		pos := e.P.Pos(rc.pos[fv])
+		if !isCallOf(got, "strconv.FormatFloat") || len(got.Args) != 4 {
+			c.Fail(rule, cons, pos, "not a call of strconv.FormatFloat: "+clip(got.Pretty()))
+			continue
+		}
+		want := e.formatFloatOf(got.Args[0])
+		why := ""
+		for i, what := range []string{"", "format verb is not 'f'", "precision is not -1 (shortest representation)", "bit size is not 64"} {
+			if i > 0 && got.Args[i].Key() != want.Args[i].Key() && why == "" {
+				why = what
 			}
 		}
-		c.Check(ok, rule, cons, e.P.Pos(x.Pos()), "strconv.FormatFloat(score, 'f', -1, 64)", why)
+		c.Check(why == "", rule, cons, pos, "strconv.FormatFloat(score, 'f', -1, 64)", why)
 	}
 }
-
-var _ = spec.V3
